@@ -247,6 +247,7 @@ def make_scene(rng, *, flavour='general', margin=MARGIN, integer=False, nonneg=F
     bkg = 20.0 + gx * xx + gy * yy + 0.6 * np.sin(xx / 7.3) * np.cos(yy / 5.1)      # > 0 everywhere
     # error map: positive everywhere, with structure (a wrong error cutout must show)
     error = np.sqrt(sigma_n ** 2 + np.abs(model) / float(rng.uniform(2.0, 8.0))) * (1.0 + 0.002 * xx + 0.001 * yy)
+    f_ = 1.0
     if integer:
         f_ = 8.0                                        # keep sub-sigma structure after rounding
         fe_ = 24.0                                      # errors up to ~400: error**2 does not fit int16 / uint16
@@ -301,7 +302,7 @@ def make_scene(rng, *, flavour='general', margin=MARGIN, integer=False, nonneg=F
         'segm': Frame(segm), 'conv': Frame(conv), 'data2': Frame(data2), 'nonfinite': nbad, 'hostile': hostile_kinds,
         # data on top of the background map over the whole frame (no zero margin): Background2D,
         # detect_threshold, calc_total_error (C15 only; never used by C03)
-        'bdata': Frame(np.maximum(np.where(inside, data, (np.rint(noise * 8.0) if integer else noise) + offset) + bkg,
+        'bdata': Frame(np.maximum(np.where(inside, data, (np.rint(noise * f_ + offset) if integer else noise + offset)) + bkg,
                                   0.0 if nonneg else -np.inf)),
         'bkg_scalar': float(np.rint(np.median(bkg))), 'err_scalar': float(np.rint(np.median(error))),
         'frame': Box(0, 0, nx, ny),
